@@ -44,7 +44,7 @@ def taylor(L, X, dt, order):
     return acc
 
 
-def make_system(cx, N, Nt, kind, nb=1):
+def make_system(cx, N, Nt, kind, nb=1, cplxH=False):
     """real Hamiltonian / relaxation objects with symbolic storage"""
     import quantarhei as qr
     from quantarhei.qm import LindbladForm, TDRedfieldRelaxationTensor
@@ -52,7 +52,7 @@ def make_system(cx, N, Nt, kind, nb=1):
     ham, sbi, time_b = build_sbi(cx, N, nb, Nt=max(Nt, 4))
     with cx.concrete():
         time = qr.TimeAxis(0.0, Nt, 1.0)
-    H = cx.real_symmetric("H", N)
+    H = cx.hermitian("H", N) if cplxH else cx.real_symmetric("H", N)
     ham._data = H
     RT, gen = None, comm_gen(H)
     extra = {}
@@ -106,8 +106,9 @@ METHOD = {2: "short-exp-2", 4: "short-exp-4", 6: "short-exp-6"}
          quick=[dict(N=2, L=2, Nt=3, Nref=1, kind="none"), dict(N=2, L=4, Nt=2, Nref=1, kind="tensor"),
                 dict(N=2, L=2, Nt=2, Nref=2, kind="lindblad_op"), dict(N=2, L=2, Nt=2, Nref=1, kind="lindblad_tensor"),
                 dict(N=2, L=2, Nt=3, Nref=1, kind="td_tensor"), dict(N=3, L=2, Nt=2, Nref=1, kind="tensor"),
-                dict(N=2, L=6, Nt=2, Nref=1, kind="none")],
-         thorough=[dict(N=2, L=l, Nt=2, Nref=r, kind=k) for l in (2, 4, 6) for r in (1, 2)
+                dict(N=2, L=6, Nt=2, Nref=1, kind="none"), dict(N=2, L=2, Nt=2, Nref=1, kind="none", cplxH=True),
+                dict(N=2, L=2, Nt=2, Nref=1, kind="tensor", cplxH=True)],
+         thorough=[dict(N=2, L=4, Nt=2, Nref=1, kind=k, cplxH=True) for k in ("none", "tensor", "lindblad_op")] +[dict(N=2, L=l, Nt=2, Nref=r, kind=k) for l in (2, 4, 6) for r in (1, 2)
                    for k in ("none", "tensor", "lindblad_op", "lindblad_tensor")
                    if not (l == 6 and r == 2)] +
                   [dict(N=2, L=2, Nt=3, Nref=1, kind=k) for k in ("none", "tensor", "lindblad_op", "td_tensor")] +
@@ -122,13 +123,14 @@ METHOD = {2: "short-exp-2", 4: "short-exp-4", 6: "short-exp-6"}
                     F_P + ":_COM", F_P + ":_TTI", F_P + ":_OTI", F_LF + ":LindbladForm._implementation"],
          bound="whole real propagate() runs without abstraction: N=2 (3), expansion order L in {2,4,6}, <=3 stored "
                "times, refinement <=2; generator: none / arbitrary tensor with the C01 identities / Lindblad form "
-               "in operator and tensor representation / time-dependent tensor; H real symmetric, rho0 Hermitian "
+               "in operator and tensor representation / time-dependent tensor; H real symmetric (and complex "
+               "Hermitian instances), rho0 Hermitian "
                "with unit trace, dt symbolic",
          out="the size of the truncation error and of rounding (the identity with the degree-L Taylor polynomial of "
              "exp(L dt) is what is decided); field-driven variants")
-def propagate(cx, N, L, Nt, Nref, kind):
+def propagate(cx, N, L, Nt, Nref, kind, cplxH=False):
     from quantarhei.qm import ReducedDensityMatrixPropagator
-    ham, time, RT, H, gen, extra = make_system(cx, N, Nt, kind)
+    ham, time, RT, H, gen, extra = make_system(cx, N, Nt, kind, cplxH=cplxH)
     rhoi, rho0 = initial_state(cx, N)
     prop = ReducedDensityMatrixPropagator(time, ham, RTensor=RT)
     dt = cx.real("dt", 0.01, 0.2)
